@@ -78,7 +78,7 @@ def _encode_qdstring(value: str) -> str:
     def rplcr(matchobj: re.Match) -> str:
         return f"\\{ord(matchobj.group(0)):02x}"
 
-    desc_str = re.sub(r"[\\|']", rplcr, value)
+    desc_str = re.sub(r"[\\']", rplcr, value)
 
     return f"'{desc_str}'"
 
